@@ -144,7 +144,8 @@ GenPeerInit ==
 GenPeerSpec == GenPeerInit /\ [][FALSE]_vars
 \* ... and a conformant foreign client: which messages are compressed, bare gRPC content types, padded -Bin values,
 \* blanks in the accept list, no protocol-version header; against every outcome class of the handler program
-RChoice(mk, pb, bc, sa, nv) == [Mask |-> mk, PadBin |-> pb, BareCT |-> bc, SpacedAccept |-> sa, NoVersion |-> nv]
+RChoice(mk, pb, bc, sa, nv) == [Mask |-> mk, PadBin |-> pb, BareCT |-> bc, SpacedAccept |-> sa, NoVersion |-> nv,
+                                ExplicitIdentity |-> ~nv]
 GenPeerClientInit ==
   \E p \in Protos, k \in Kinds, codec \in {"proto", "json"}, cs \in {"none", "gzip", "rev"}, mk \in {0, 1, 2, 3},
      pb \in BOOLEAN, bc \in BOOLEAN, sa \in BOOLEAN, hp \in {<<>>, <<"rev">>},
